@@ -154,7 +154,7 @@ func (r *headerRange[H]) rangeAmount(end uint64) uint64 {
 	}
 
 	amnt := uint64(len(r.headers))
-	if r.start+amnt >= end {
+	if r.start+amnt > end {
 		amnt = end - r.start + 1 // + 1 to include 'end' as well
 	}
 
